@@ -131,6 +131,23 @@ let show_res (n : int) (r : exp res) : string =
   | Unsupported -> "unsupported"
   | OutOfFuel -> "oof"
 
+(* decimal rendering of a Z from its hex rendering (base conversion on digit strings only) *)
+module Z_dec = struct
+  let to_string (x : z) : string =
+    let h = hex_of_z x in
+    let neg = String.length h > 0 && h.[0] = '-' in
+    let h = if neg then String.sub h 1 (String.length h - 1) else h in
+    (* digits little-endian base 10 *)
+    let d = ref [0] in
+    let mul16_add v =
+      let carry = ref v in
+      d := List.map (fun x -> let t = x * 16 + !carry in carry := t / 10; t mod 10) !d;
+      while !carry > 0 do d := !d @ [!carry mod 10]; carry := !carry / 10 done in
+    String.iter (fun c -> mul16_add (hexval c)) h;
+    let s = String.concat "" (List.rev_map string_of_int !d) in
+    (if neg then "-" else "") ^ s
+end
+
 let () =
   iter_lines (fun line ->
     match split_on ' ' line with
@@ -144,4 +161,12 @@ let () =
       print_endline (String.concat " @@ " [
         id ^ " " ^ String.concat " " (List.map string_of_tok ts);
         show_exp (norm e); b2s (plain e); show_res (List.length ts) (parse ts) ])
+    | [id; "N"; kind; digits] ->
+      (* integer numerals: S (manual) and IM (ast.NewNumber) denotations; decimal output via hex of the Z *)
+      let ds = List.init (String.length digits) (fun i -> z_of_int (hexval digits.[i])) in
+      let show v = match v with
+        | NInt z -> "i" ^ Z_dec.to_string z
+        | NFloatOf n -> "F" ^ Z_dec.to_string n in
+      let s, im = if kind = "hex" then s_hex ds, go_hex ds else s_dec ds, go_dec ds in
+      print_endline (id ^ " " ^ show s ^ " " ^ show im)
     | _ -> ())
